@@ -99,10 +99,14 @@ func specFor(sc scenario) *common.Spec {
 }
 
 // drawScenario draws a scenario of the given family.
-func drawScenario(rng *rand.Rand, family string, quick bool) scenario {
+func drawScenario(rng *rand.Rand, family string, quick bool, forceLate ...bool) scenario {
 	sc := scenario{Family: family, Preset: "minimal", Validators: 64, Epochs: 8, PBlock: 0.92, Participation: []float64{1}, SyncPart: 0.9, AttBack: 2, POps: 0.25, PDeposits: 0.0, Eth1Creds: 0.5, ExtraBalance: true}
 	// fork schedules
-	switch rng.IntN(6) {
+	lateForks := false
+	switch rng.IntN(7) {
+	case 6: // later forks after the first sync-committee period boundary (set below once the preset is known)
+		lateForks = true
+		sc.ForkEpochs = [4]uint64{1, 2, 10, 11}
 	case 0:
 		sc.ForkEpochs = [4]uint64{1, 2, 3, 4}
 	case 1:
@@ -164,6 +168,23 @@ func drawScenario(rng *rand.Rand, family string, quick bool) scenario {
 		sc.ForkEpochs = [4]uint64{1, 1, 2, 2}
 		sc.PBlock = 0.85
 		sc.POps = 0.3
+		lateForks = false
+	}
+	if len(forceLate) > 0 && forceLate[0] && family != "mainnet" {
+		lateForks = true
+	}
+	if lateForks && family != "capella" && !(family == "leak" && sc.Epochs > 40) {
+		period := uint64(8)
+		if sc.Preset == "custom" {
+			period = 4
+		}
+		sc.ForkEpochs = [4]uint64{1, 2, period + 1 + uint64(rng.IntN(2)), period + 2 + uint64(rng.IntN(3))}
+		if sc.ForkEpochs[3] < sc.ForkEpochs[2] {
+			sc.ForkEpochs[3] = sc.ForkEpochs[2]
+		}
+		if uint64(sc.Epochs) < sc.ForkEpochs[3]+2 {
+			sc.Epochs = int(sc.ForkEpochs[3]) + 2
+		}
 	}
 	return sc
 }
